@@ -77,7 +77,11 @@ def cli_case(wd, sd, i, accepted, case=None):
         tests = "- name: one\n  input: %s\n  expectations:\n    rules: {}\n" % (c["data"].replace("\n", " ") or "{}")
     tsp = wd.write(base + "/r_tests.yaml", tests)
     out = []
+    rs = wd.write(base + "/r.ruleset", c["rules"])
     for cmd, args in (("validate", ["validate", "-r", rp, "-d", dp, "--structured", "-o", "json", "-S", "none"]),
+                      ("validate", ["validate", "-r", rs, "-d", dp, "--structured", "-o", "junit", "-S", "none"]),
+                      ("validate", ["validate", "-r", rs, "-d", dp, "--structured", "-o", "sarif", "-S", "none"]),
+                      ("validate", ["validate", "-r", rp, "-d", dp, "--structured", "-o", "yaml", "-S", "none"]),
                       ("validate", ["validate", "-r", rp, "-d", dp, "-S", "all", "-v"]),
                       ("test", ["test", "-r", rp, "-t", tsp]),
                       ("parse-tree", ["parse-tree", "-r", rp, "--print-json"]),
